@@ -34,6 +34,9 @@ enum Target {
     /// the caller's own address: the party reached is the caller itself
     Own,
     Nobody,
+    /// holds its own key F, names E (as text) as the common name of its certificate, and hangs
+    /// up right after its version frame in half of the connections it accepts
+    Flaky,
 }
 
 fn run(input: RunInput) -> ScenFuture {
@@ -79,6 +82,37 @@ fn run(input: RunInput) -> ScenFuture {
             idx: 8, port: 7000, chain: vec![gen_cert(&km, "sim"), gen_cert(&ke, "sim")], sign_key: km, present_client_cert: true,
             idle_ms: 6_000, keep_alive_ms: Some(1_500), max_bidi: 100,
         });
+        let kf = w.key_for(7);
+        let f_id = public_key(&kf);
+        w.name_peer(f_id, "F");
+        let flaky_ep = adv_endpoint(&w, AdvSpec {
+            idx: 7, port: 7000, chain: vec![gen_cert_common_name(&kf, "sim", &format!("{e_id}"))], sign_key: kf, present_client_cert: true,
+            idle_ms: 6_000, keep_alive_ms: Some(1_500), max_bidi: 100,
+        });
+        {
+            let ep = flaky_ep.ep.clone();
+            let mut rf = w.rng("adv:flaky");
+            tokio::spawn(async move {
+                while let Some(inc) = ep.accept().await {
+                    let hang_up = rf.gen_bool(0.5);
+                    tokio::spawn(async move {
+                        if let Ok(conn) = inc.await {
+                            if let Ok(mut s) = conn.open_uni().await {
+                                let _ = s.write_all(&wire::preamble(1)).await;
+                                let _ = s.finish();
+                                if hang_up {
+                                    // (the frame is on its way; the close follows it at once)
+                                    conn.close(0u32.into(), b"");
+                                    return;
+                                }
+                                let _ = s.stopped().await;
+                            }
+                            conn.closed().await;
+                        }
+                    });
+                }
+            });
+        }
         let imp_accepted = Arc::new(Mutex::new(0u32));
         for (ep, counted) in [(imp.ep.clone(), true), (chain_ep.ep.clone(), false)] {
             // the impostor implements the acknowledgement, so only TLS stands between it and success
@@ -130,13 +164,14 @@ fn run(input: RunInput) -> ScenFuture {
                 Target::Impostor => imp.addr,
                 Target::Chain => chain_ep.addr,
                 Target::Own => c.addr,
+                Target::Flaky => flaky_ep.addr,
                 Target::Nobody => addr(77),
             }
         };
         let mut r = w.rng("wl:calls");
         let mut plan = Vec::new();
         for _ in 0..n_calls {
-            let t = [Target::E, Target::O, Target::Impostor, Target::Nobody, Target::Chain, Target::Own][r.gen_range(0..6)];
+            let t = [Target::E, Target::O, Target::Impostor, Target::Nobody, Target::Chain, Target::Own, Target::Flaky][r.gen_range(0..7)];
             // expectation: Some(E) / Some(O) / None (plain connect) / sometimes Some(M)
             let expect: Option<PeerId> = match r.gen_range(0..3) {
                 0 => None,
@@ -208,6 +243,7 @@ fn run(input: RunInput) -> ScenFuture {
                 Target::O => Some(o.peer_id),
                 Target::Chain => Some(m_id),
                 Target::Own => Some(c.peer_id),
+                Target::Flaky => Some(f_id),
                 _ => None,
             }
         };
@@ -234,7 +270,7 @@ fn run(input: RunInput) -> ScenFuture {
                         // fault-free: a dial to the right party with a matching (or no) expectation succeeds
                         // (whether a chain of several certificates is acceptable at all is not this
                         // property's business: no success is demanded there)
-                        let should = t != Target::Chain && t != Target::Own && holder(t).map(|h| expect.map(|x| x == h).unwrap_or(true)).unwrap_or(false);
+                        let should = t != Target::Chain && t != Target::Own && t != Target::Flaky && holder(t).map(|h| expect.map(|x| x == h).unwrap_or(true)).unwrap_or(false);
                         w.check(!should, "matching-dial-failed-without-loss", key.clone(), || format!("call {i} failed: {e}"));
                     }
                 }
@@ -303,12 +339,12 @@ fn run(input: RunInput) -> ScenFuture {
         }
         if *imp_accepted.lock().unwrap() > 0 { w.probe("impostor-saw-completed-tls(plain-connect)"); }
         for p in c.net.peers() {
-            w.check(Some(p) == e_online.then_some(e_id) || p == o.peer_id || p == m_id || p == c.peer_id || takeover_ids.contains(&p), "listed-identity-nobody-holds", w.pname(&p), || "caller lists an identity that no reachable endpoint holds".into());
+            w.check(Some(p) == e_online.then_some(e_id) || p == o.peer_id || p == m_id || p == f_id || p == c.peer_id || takeover_ids.contains(&p), "listed-identity-nobody-holds", w.pname(&p), || "caller lists an identity that no reachable endpoint holds".into());
         }
         w.sample("known_peers_of_caller", json!(kp.iter().map(|(p, a)| format!("{}={a}", w.pname(p))).collect::<Vec<_>>()));
         w.sample("calls", json!({"e_online": e_online, "lossy": lossy, "calls": results.iter().map(|(i, r, _)| json!({"target": format!("{:?}", plan[*i].0), "expect": plan[*i].1.map(|p| w.pname(&p)), "result": r.as_ref().map(|p| w.pname(p)).map_err(|e| e.chars().take(60).collect::<String>())})).collect::<Vec<_>>()}));
         let out = w.finish();
-        drop((c, e, o, imp, chain_ep, retired_nodes));
+        drop((c, e, o, imp, chain_ep, flaky_ep, retired_nodes));
         out
     })
 }
